@@ -324,6 +324,12 @@ func init() {
 			runs = append(runs, RunSpec{Name: "gov-max-timeout-extremes", Sc: withFunds(scLife(paramSet("0.1", "0.001"), tm, AlphaOpts{RespKinds: []string{"ok"}, CtxOps: []string{"pause", "start"}, ParamChanges: []ParamSet{g, g62}}, 6, 4, 3), 40, 5), Oracles: o})
 		}
 		runs = append(runs, modSelfStartRun(o, MonFlags{}, d-1, b, m))
+		// the owning module answers the failed batch of one context by starting its other (paused) contexts (both processing orders)
+		for _, fl := range []bool{false, true} {
+			sc := scMod(paramSet("0.1", "0.001"), []Template{tModGap2, tMod2}, AlphaOpts{RespKinds: []string{"ok"}, ModOps: []string{"mpause"}}, d-1, b, m)
+			sc.Name, sc.Rig.ReentrantRespStartSibs, sc.FlipIDs = "S-MOD(start siblings in response callback)", true, fl
+			runs = append(runs, RunSpec{Name: fmt.Sprintf("mod-start-siblings-in-response-callback(flip=%v)", fl), Sc: withFunds(sc, 40, 5), Oracles: o})
+		}
 		// the owning module starts a context again from inside the "paused: insufficient balances" state callback
 		runs = append(runs, RunSpec{Name: "mod-restart-in-callback", Sc: scModRestart(defaultParams(), []Template{tMod1, tModPoor},
 			AlphaOpts{RespKinds: []string{"ok"}, ModOps: []string{"mpause", "mstart"}}, d-1, b-1, m), Oracles: o, Mon: MonFlags{Restart: true}})
@@ -638,6 +644,10 @@ func fxBases(tier string) []base {
 		}},
 		{"fx-rate-unavailable", func() *Scenario {
 			return scFX(paramSet("0.1", "0.001"), "fusd1v", []Template{tFxRep, tFxMix}, fxO, fxSpec(H0+2), d, b, m)
+		}},
+		{"fx-no-rate-service", func() *Scenario {
+			// the host has a token module but no exchange-rate service at all: a foreign price can never be exchanged
+			return scFX(paramSet("0.1", "0.001"), "fusd1", []Template{tFxOne, tFxRep}, AlphaOpts{RespKinds: []string{"ok"}, BindOps: []Action{actUpdate("a", "P1", "O1", 0, "p2", 0)}}, &FXSpec{NoService: true}, d-1, b, m)
 		}},
 		{"fx-mod-rate-unavailable", func() *Scenario {
 			// a context owned by another module (callbacks recorded) whose only provider is priced in the foreign token
